@@ -252,6 +252,10 @@ func SeqLen(s *Term) *Term {
 		return IntLit(1)
 	case "lit." + s.Sort.Name:
 		return IntLit(int64(len(s.Args)))
+	case "cat." + s.Sort.Name:
+		if es, ok := litElems(s); ok {
+			return IntLit(int64(len(es)))
+		}
 	}
 	return App("len."+s.Sort.Name, SInt, s)
 }
@@ -266,6 +270,13 @@ func SeqAt(s, i *Term) *Term {
 	if s.Op == "unit."+s.Sort.Name && i.Int != nil && i.Int.Sign() == 0 && s.Sort.Name != "Str" {
 		return s.Args[0]
 	}
+	if s.Op == "cat."+s.Sort.Name && i.Int != nil && i.Int.IsInt64() {
+		if es, ok := litElems(s); ok {
+			if k := i.Int.Int64(); k >= 0 && k < int64(len(es)) && es[k].Int != nil {
+				return es[k]
+			}
+		}
+	}
 	return App("at."+s.Sort.Name, s.Sort.Elem, s, i)
 }
 
@@ -274,12 +285,41 @@ func SeqUnit(s *Sort, e *Term) *Term {
 	return App("unit."+s.Name, s, e)
 }
 
+// litElems returns the elements of a literal sequence term (unit, right-nested cat of units, lit).
+func litElems(t *Term) ([]*Term, bool) {
+	n := t.Sort.Name
+	switch t.Op {
+	case "empty." + n:
+		return nil, true
+	case "unit." + n:
+		return []*Term{t.Args[0]}, true
+	case "lit." + n:
+		return t.Args, true
+	case "cat." + n:
+		if t.Args[0].Op != "unit."+n {
+			return nil, false
+		}
+		rest, ok := litElems(t.Args[1])
+		if !ok {
+			return nil, false
+		}
+		return append([]*Term{t.Args[0].Args[0]}, rest...), true
+	}
+	return nil, false
+}
+
 func SeqCat(a, b *Term) *Term {
 	if a.Op == "empty."+a.Sort.Name {
 		return b
 	}
 	if b.Op == "empty."+b.Sort.Name {
 		return a
+	}
+	if ea, ok := litElems(a); ok && len(ea) > 0 {
+		if eb, ok := litElems(b); ok && len(eb) > 0 {
+			// concatenation of two literals is a literal (keeps the normal form)
+			return SeqLit(a.Sort, append(append([]*Term{}, ea...), eb...)...)
+		}
 	}
 	return App("cat."+a.Sort.Name, a.Sort, a, b)
 }
@@ -295,6 +335,14 @@ func SeqDrop(s, n *Term) *Term {
 	if s.Op == "drop."+s.Sort.Name {
 		return App("drop."+s.Sort.Name, s.Sort, s.Args[0], Add(s.Args[1], n))
 	}
+	if n.Int != nil && n.Int.IsInt64() {
+		// a constant suffix of a literal is a literal
+		if es, ok := litElems(s); ok {
+			if k := n.Int.Int64(); k >= 0 && k <= int64(len(es)) {
+				return SeqLit(s.Sort, es[k:]...)
+			}
+		}
+	}
 	return App("drop."+s.Sort.Name, s.Sort, s, n)
 }
 
@@ -305,6 +353,13 @@ func SeqTake(s, n *Term) *Term {
 	}
 	if n.String() == SeqLen(s).String() {
 		return s
+	}
+	if n.Int != nil && n.Int.IsInt64() {
+		if es, ok := litElems(s); ok {
+			if k := n.Int.Int64(); k >= 0 && k <= int64(len(es)) {
+				return SeqLit(s.Sort, es[:k]...)
+			}
+		}
 	}
 	return App("take."+s.Sort.Name, s.Sort, s, n)
 }
